@@ -380,9 +380,56 @@ pub fn run(p: &Params) -> Report {
             );
         }
     }
+    // (f) long programs: instruction counts around every width a counter or an operand could have (2^8, 2^16, 2^17) and
+    // beyond - "consumes the whole input" and both round trips must hold however long the program is
+    let n_f = p.n(3, 40) as usize;
+    let mut lens: Vec<usize> = vec![];
+    if p.shard == 0 {
+        lens.extend([254usize, 255, 256, 257, 65534, 65535, 65536, 65537, 65538, 131071, 131072, 131073]);
+    }
+    for _ in 0..n_f {
+        lens.push(match r.below(4) {
+            0 => 65530 + r.usize(16),
+            1 => 65537 + r.usize(70000),
+            2 => 200 + r.usize(200),
+            _ => 1000 + r.usize(64000),
+        });
+    }
+    for (k, n_ops) in lens.into_iter().enumerate() {
+        let filler = r.below(3);
+        let ops: Vec<Op> = (0..n_ops)
+            .map(|i| {
+                if filler == 0 {
+                    // a program whose tail matters: the last instruction decides the result
+                    if i == 0 { Op::PushI({ let mut a = [0u8; 32]; a[31] = 1; a }) } else if i + 1 == n_ops { Op::PushI([0u8; 32]) } else { Op::Noop }
+                } else {
+                    match random_op(&mut r, false) {
+                        Op::Loop(_, _) => Op::Noop,
+                        Op::PushB(b) if b.len() > 8 => Op::Dup,
+                        o => o,
+                    }
+                }
+            })
+            .collect();
+        check_ops(&mut rep, &ops, "long-program");
+        let b = refvm::encode(&ops).unwrap();
+        check_bytes(&mut rep, &b, "long-program", true);
+        rep.count("long programs");
+        if n_ops > 65536 {
+            rep.count("long programs beyond 65536 instructions");
+        }
+        // a trailing byte that is not an instruction must still make the whole string undecodable
+        let mut t = b.clone();
+        t.push(0x08);
+        check_bytes(&mut rep, &t, "long-program+unassigned-trailing-byte", false);
+        if k == 0 && p.shard == 0 {
+            rep.sample(json!({"class": "long-program", "instructions": n_ops, "bytes": b.len()}));
+        }
+    }
     if p.shard == 0 {
         rep.sample(json!({"bytes": "f20100", "class": "non-canonical PushIC (leading zero)", "decodes": Covenant::from_bytes(&[0xf2, 1, 0]).is_ok()}));
     }
     rep.require("decodable", 1000);
+    rep.require("long programs beyond 65536 instructions", 1);
     rep
 }
